@@ -4,8 +4,10 @@ package nack
 
 import (
 	"encoding/json"
+	"errors"
 	"sort"
 	"sync"
+	"sync/atomic"
 	"testing"
 	"time"
 
@@ -25,13 +27,16 @@ type vfNackScript struct {
 	// only, whatever their feedback list says), "none"
 	Filt  string `json:"filt"`
 	Steps []struct {
-		A    string `json:"a"`
-		S    uint32 `json:"s"`
-		W    uint16 `json:"w"`
-		Nack bool   `json:"nack"`
-		Fb   string `json:"fb"` // RTCP feedback list of the stream: "" (nack only, if Nack), "plifirst", "nackfirst", "plionly", "other"
+		A     string `json:"a"`
+		S     uint32 `json:"s"`
+		W     uint16 `json:"w"`
+		Nack  bool   `json:"nack"`
+		WFail bool   `json:"wfail"` // tick: the RTCP writer refuses every write of this tick (after it has seen the packet)
+		Fb    string `json:"fb"`    // RTCP feedback list of the stream: "" (nack only, if Nack), "plifirst", "nackfirst", "plionly", "other"
 	} `json:"steps"`
 }
+
+var errVfNackInjected = errors.New("injected RTCP write failure") //nolint:gochecknoglobals
 
 func vfSorted(in []uint16) []uint16 {
 	out := append([]uint16{}, in...)
@@ -149,9 +154,13 @@ func vfRunIcpt(t *testing.T, sc *vfNackScript, out *vfWriter) {
 
 	var mu sync.Mutex
 	var written []vfM
-	ic.BindRTCPWriter(interceptor.RTCPWriterFunc(func(pkts []rtcp.Packet, _ interceptor.Attributes) (int, error) {
+	var failNow atomic.Bool
+	ic.BindRTCPWriter(interceptor.RTCPWriterFunc(func(pkts []rtcp.Packet, _ interceptor.Attributes) (res int, rerr error) {
 		mu.Lock()
 		defer mu.Unlock()
+		if failNow.Load() {
+			res, rerr = 0, errVfNackInjected
+		}
 		for _, p := range pkts {
 			if n, ok := p.(*rtcp.TransportLayerNack); ok {
 				nums := []uint16{}
@@ -170,6 +179,10 @@ func vfRunIcpt(t *testing.T, sc *vfNackScript, out *vfWriter) {
 			} else {
 				written = append(written, vfM{"s": 0, "nums": []uint16{}, "foreign": true})
 			}
+		}
+
+		if rerr != nil {
+			return res, rerr
 		}
 
 		return len(pkts), nil
@@ -247,8 +260,10 @@ func vfRunIcpt(t *testing.T, sc *vfNackScript, out *vfWriter) {
 			mu.Lock()
 			written = nil
 			mu.Unlock()
+			failNow.Store(st.WFail)
 			gate.release <- struct{}{} // run exactly one tick body
 			waitArrive()               // parked at the next tick: every write of the previous body has happened
+			failNow.Store(false)
 			mu.Lock()
 			got := written
 			written = nil
